@@ -193,7 +193,8 @@ def _true(*_a, **_k):
 NATIVE = {f.__name__: f for f in (node_start, node_end, pos_le, tok_wf, node_wf, is_none, has_field, is_translation, all_located, has_p_prefix, strip_p, tok_of,
                                   le_val, le_isbytes, le_numkind, lit_numkind, lit_isbytes, lit_val, lit_fold, brk, runs, run_begin)}
 # invariants of the tokenizer object: true of the fresh tokenizer every call is made with
-NATIVE.update({"tk_ok": _true, "toks_wf": _true, "can_peek": _true})
+NATIVE.update({"tk_ok": _true, "toks_wf": _true, "can_peek": _true,
+               "parts_wf": lambda parts: all(node_wf(p) for p in parts), "tree_wf": lambda n: n is None or all(node_wf(x) for x in ast.walk(n) if hasattr(x, "lineno"))})
 UNSUPPORTED_NAMES = {"yield_at", "yielded", "_i", "gen_pos", "gen_item", "gen_len", "gen_cat", "gen_count", "cache_ok", "cache_has", "cache_end", "cache_tree", "lr_cache_ok",
                      "em_cached", "endmarker_pulled", "endmarker_last", "last", "prefix_of", "lines_ok", "lines_left", "wf_error", "exc", "node_id", "truthy", "layout",
                      "indent_col", "indents_wf", "mode_kind_of", "mode_level_of", "pat_kind", "pat_q", "same_frame", "is_blank_char", "tok_type"}
@@ -355,6 +356,8 @@ class Gen:
                         out.append(ast.JoinedStr(values=vals, lineno=1, col_offset=c, end_lineno=1, end_col_offset=c + 5))
                         c += 6
                 return out
+            if "ast.FormattedValue" in inner:                                          # parts of an f-string
+                return self.value("abslist[obj:StrPart]")
             if inner.startswith("(") or inner.startswith("obj:"):
                 return [self.value(inner) for _ in range(r.randint(0, 3))]
             kinds = [("Tok" if k.strip() == "Tok" else k.strip().split(".")[-1].replace("PosNode", "Call")) for k in self.split(inner[6:-1] if inner.startswith("union[") else inner, "|")]
